@@ -186,6 +186,27 @@ def r5_manual(chk, prog, graph, manual_ser):
     chk.require(set(in_graph) <= set(specs), "R5", "tough::schema", "known-manual-impls",
                 "hand-written Serialize impls in the signed portion: %s; not in the checked table: %s"
                 % (in_graph, sorted(set(in_graph) - set(specs))))
+    # hand-written Deserialize impls of types in (or used by) the signed portion accept every JSON spelling
+    # of a string: they deserialize an owned String (or visit_str AND visit_string) — `<&str>::deserialize`
+    # can only borrow strings without escape sequences and refuses "\u0041", "\/" .. (re-formatting by
+    # another implementation must not make a document unacceptable)
+    n_de = 0
+    for b in prog.bodies.values():
+        if "/.cargo/" in b.file or not b.crate.startswith("tough-"):
+            continue
+        if " as serde::de::Deserialize<'de>>::deserialize" not in b.path or "::_::" in b.path:
+            continue
+        n_de += 1
+        chk.analysed_body(b)
+        for bb, t in b.calls():
+            r = t.resolved or ""
+            borrowed = ("for &'a str>::deserialize" in r or "for &'a [u8]>::deserialize" in r
+                        or (t.is_call_to("serde::de::Deserialize::deserialize") and t.generic_args[:1] in (["&str"], ["&[u8]"])))
+            chk.require(not borrowed, "R5", short_fn(b.path), "accepts-escaped-strings",
+                        "%s deserializes a borrowed &str: serde_json can lend a string only when it contains no escape "
+                        "sequence, so a validly signed document that spells a value with \\uXXXX or \\/ is refused"
+                        % short_fn(b.path), site_of(t.sp))
+    chk.floor("R5-deserialize", n_de, 2, "hand-written Deserialize impls in tough (Decoded, TargetName, ..)")
     for adt, (field, ser_path, de_path) in specs.items():
         sctx = ctx_of(prog, ser_path)
         if sctx is None:
